@@ -68,6 +68,7 @@ class ZkStore:
         self.writes = 0
         self.fail_at = None         # crash at the k-th write (1-based), before applying it
         self.gate = None            # callable(session, op, path) run before every call
+        self.deferred = None        # a list: watch notifications queue up (FIFO) instead of running
         self.lock = threading.RLock()
 
     # -- time ------------------------------------------------------------
@@ -118,6 +119,9 @@ class ZkStore:
         return fired
 
     def _fire(self, fired):
+        if self.deferred is not None:
+            self.deferred.extend(fired)
+            return
         for fn, ev in fired:
             fn(ev)
 
